@@ -27,6 +27,12 @@ CLAIMED = {
         'design': '6 C19',
         'technique': 'Coq proof (induction over entry lists, refinement of a declarative spec) + source-translated tables with vm_compute obligations + exhaustive finite-product and sampled extracted-model correspondence',
     },
+    'C18': {
+        'text': 'Theorems for all raw tables (unbounded) about an executable model of EveObjBuilder.run: cleaner result = least closure of the strong types under the reference relation (sound and complete); loop termination with fuel > number of rows and progress on every changing pass; first row wins for duplicate/non-integer primary keys, surplus default effects and surplus rack effects; at most one default and one rack effect per type; no dangling reference from built types/attributes/effects/buff templates to anything that exists in the raw data; the rows reaching the converter, and the built ids, are invariant under arbitrary iteration order between stages. Primary keys, strong categories/groups, auxiliary tables, foreign keys, modifier-info and buff-section fields, autocharge/buff attribute ids, rack effects and constructor-argument maps are re-translated from the source on every run and proved to satisfy what the theorems need (every converter reference field is in the cleaner\'s foreign-key table); the extracted model is run against the real builder on generated data sets under three PYTHONHASHSEED values.',
+        'note': 'Print Assumptions: closed under the global context for all 35 statements; coqchk lists no axioms. Modelled, not verified: Python set/dict equality of numbers (5 == 5.0 == key 5, True == 1), int() of strings (computed by the glue), the cleaner\'s effectID-keyed modifier-info map taken as the row\'s own infos (equal by PK uniqueness). Not modelled: the three fighter-ability validations and abilities_data; modifier objects (C19) - built modifiers are compared only as ids within the ids the row\'s modifier infos name; shuffles inside the cleaner loop (stage boundaries only). Domain: modifierInfo absent/None/falsy scalar/list of dicts, buff sections absent or lists of dicts; other shapes give OutOfDomain (none generated). Closure is over the cleaned rows: every-built-effect-is-carried-by-a-built-type is refuted (C18_built_effects_all_carried_refuted; a surplus rack row is removed after cleaning). A KeyError on a reachable skill row without level, or on a buff row with missing operation/aggregate/modifier fields, is reproduced by the model and treated as outside the property\'s domain. Describes /repo after fix commits 8f696c2, f4b5818, 82f84d8.',
+        'design': '6 C18',
+        'technique': 'Coq proof (closure / fixed point, first-wins scans, permutation invariance) + source-translated tables with vm_compute obligations + extracted-model correspondence under 3 hash seeds',
+    },
 }
 
 NOT_YET = 'check not built yet in this session (construction order in DESIGN.md section 11); not claimed until its theorems and tie exist'
